@@ -2243,7 +2243,8 @@ fn gen_runs(rng: &mut Rng, n: &mut usize, thorough: bool, force: Option<usize>, 
             ops.push(format!("alias {} {} {} via=1", next(n), 2000 + i, khex(i)));
         }
     }
-    let b = pick(rng).min(if thorough { 300 } else { 70 });
+    // (the per-broadcast bookkeeping is quadratic in the number of peers on both sides: fewer rounds for big sets)
+    let b = pick(rng).min(if k > 300 { 40 } else if thorough { 300 } else { 70 });
     for i in 0..b {
         match i % 4 {
             0 => ops.push(format!("bcast {} raw 2f67 0 0102 via=0", next(n))),
